@@ -34,22 +34,22 @@ RULE = ('one run = one subject balance query over a generated ledger (multi-curr
         'scan ran inside one of its rows; distinct = distinct digest of (ledger, subject, interference plan).')
 ASSUMPTIONS = [
     'claimed for the running-balance clause of C12; the sum()/units()/cost() facts ride along as exact riders; the value()/convert() laws are not covered (28th-digit differences through inverted prices make an exact oracle unsound)',
-    'case A oracle uses the position cells of the same result (a WHERE/FROM bug cannot raise a C12 alarm); case B aligns returned rows to the all-postings sequence by (lineno, position)',
+    'case A oracle uses the position cells of the same result (a WHERE/FROM bug cannot raise a C12 alarm); case B aligns returned rows to the all-postings sequence by the scan index delivered by the harness function verif_rowno',
     'Inventory arithmetic (add_position, reduce) is beancount core and trusted',
 ]
-PROBES = ['aggregate_over_balance_checked', 'equal_consecutive_postings', 'scan_between_balance_refs', 'balance_scan_between_balance_refs', 'nested_scan_died_halfway', 'other_connection_scan',
+PROBES = ['same_transaction_object_twice', 'balance_only_as_later_operand', 'aggregate_over_balance_checked', 'equal_consecutive_postings', 'scan_between_balance_refs', 'balance_scan_between_balance_refs', 'nested_scan_died_halfway', 'other_connection_scan',
           'where_consults_balance', 'from_clause_subject', 'lots_reduced_in_selection', 'in_subquery_touching_balance',
           'three_refs', 'nested_result_checked', 'rider_checked']
 
-REFS = ['balance', 'units(balance)', 'cost(balance)']
+REFS = ['balance', 'units(balance)', 'cost(balance)', 'balance', 'units(balance)', 'cost(balance)', 'only(cost_currency, balance)']
 FROMS = [None, None, None, 'year = 2020', 'year >= 2020 OPEN ON 2020-02-01', 'CLOSE ON 2020-03-01',
          'date >= 2020-01-10 CLEAR', 'OPEN ON 2020-01-20 CLOSE ON 2020-04-01']
 FILTERS = [None, None, 'account ~ "Equity"', 'account ~ "Assets"', 'number > 0', 'currency = "USD"', 'account ~ "Broker|Bank"',
            'number < 0', 'cost_number IS NOT NULL', 'account != "Income:PnL"']
 NESTED = [
-    ('SELECT position AS pos, lineno AS ln, balance AS b0', True),
-    ('SELECT position AS pos, lineno AS ln, balance AS b0, units(balance) AS b1 WHERE number > 0', True),
-    ('SELECT position AS pos, lineno AS ln, cost(balance) AS b0 WHERE account ~ "Assets"', True),
+    ('SELECT position AS pos, verif_rowno(number) AS ln, balance AS b0', True),
+    ('SELECT position AS pos, verif_rowno(number) AS ln, balance AS b0, units(balance) AS b1 WHERE number > 0', True),
+    ('SELECT position AS pos, verif_rowno(number) AS ln, cost(balance) AS b0 WHERE account ~ "Assets"', True),
     ('JOURNAL "Assets"', True),
     ('SELECT account, number', False),
     ('SELECT account, sum(position) AS s GROUP BY account', False),
@@ -62,6 +62,8 @@ def generate(rng, tier, run):
     ledger = world.gen_ledger(rng, n_txn=rng.randint(3, 10 if not big else 20), repeats=repeats)
     if repeats and rng.random() < 0.6:
         ledger['nometa'] = True
+    if rng.random() < 0.15:
+        ledger['dupobj'] = rng.choice([1, 2, 3])
     other = world.gen_ledger(rng, n_txn=rng.randint(2, 5))
     nrefs = rng.choice([1, 2, 2, 2, 3])
     refs = [rng.choice(REFS) for _ in range(nrefs)]
@@ -91,7 +93,7 @@ def generate(rng, tier, run):
             return 'account IN (SELECT account FROM #postings WHERE number > 0)'
         return rng.choice(['account', 'number', 'date'])
 
-    targets = ['position AS pos', 'lineno AS ln']
+    targets = ['position AS pos', 'verif_rowno(number) AS ln']
     ninter = 0
     for i, r_ in enumerate(refs):
         if rng.random() < (0.75 if i else 0.3):
@@ -138,7 +140,12 @@ def generate(rng, tier, run):
 # ---------------------------------------------------------------------------
 # the invariant
 
-def wrap(inv, ref):
+def wrap(inv, ref, pos=None):
+    if ref == 'only(cost_currency, balance)':
+        # NULL where the first operand is NULL; the running balance advances on every selected row all the same
+        if pos is None or pos.cost is None:
+            return None
+        return inv.get_currency_units(pos.cost.currency)
     if ref == 'units(balance)':
         return inv.reduce(convert.get_units)
     if ref == 'cost(balance)':
@@ -149,7 +156,7 @@ def wrap(inv, ref):
 def check_prefix(desc, rows, refs, full=None):
     """Case A (full is None): balance cell i == inventory sum of position
     cells 0..i of the same result.  Case B: `full` is the all-postings list of
-    (lineno, position); rows are aligned to it and the expected value is the
+    positions in scan order; rows carry their scan index (verif_rowno) and the expected value is the
     prefix over all postings.  Returns a list of problems (dicts)."""
     names = [c.name for c in desc]
     ipos, iln = names.index('pos'), names.index('ln')
@@ -161,16 +168,15 @@ def check_prefix(desc, rows, refs, full=None):
         if full is None:
             run.add_position(row[ipos])
         else:
-            key = (row[iln], canon(row[ipos]))
-            while j < len(full) and (full[j][0], canon(full[j][1])) != key:
-                run.add_position(full[j][1])
-                j += 1
-            if j >= len(full):
+            # row[iln] is the index of the posting in scan order (harness function verif_rowno)
+            k = row[iln]
+            if not isinstance(k, int) or k < j or k >= len(full) or canon(full[k]) != canon(row[ipos]):
                 return [{'kind': 'unaligned', 'row': ri}]
-            run.add_position(full[j][1])
-            j += 1
+            while j <= k:
+                run.add_position(full[j])
+                j += 1
         for bi, ref in zip(ib, refs):
-            exp = canon(wrap(run, ref))
+            exp = canon(wrap(run, ref, row[ipos]))
             got = canon(row[bi])
             if got != exp:
                 problems.append({'kind': 'balance-not-prefix-sum', 'row': ri, 'ref': ref, 'expected': exp, 'observed': got})
@@ -272,7 +278,7 @@ def execute(case, keep_log=False):
                     if n.get('fault'):
                         S.armed = None
                 log.add('nested', kk, c_, 'ok', core.digest(core.canon_rows(r))[:12])
-                if n['stmt'].startswith('SELECT position AS pos'):
+                if n['stmt'].startswith('SELECT position AS pos'):  # nested statements have no balance-consulting condition: case A
                     nrefs = [x for x in ('balance', 'units(balance)', 'cost(balance)')
                              if f'{x} AS b' in n['stmt']]
                     order = sorted(nrefs, key=lambda x: n['stmt'].index(f'{x} AS b'))
@@ -306,6 +312,10 @@ def execute(case, keep_log=False):
                 S.probes['from_clause_subject'] += 1
             if len(sub['refs']) >= 3:
                 S.probes['three_refs'] += 1
+            if W['ledger'].get('dupobj'):
+                S.probes['same_transaction_object_twice'] += 1
+            if all(r_.startswith('only(') for r_ in sub['refs']):
+                S.probes['balance_only_as_later_operand'] += 1
             if 'NOT empty(balance))' in sub['text']:
                 S.probes['in_subquery_touching_balance'] += 1
             names = [c.name for c in desc]
@@ -318,8 +328,8 @@ def execute(case, keep_log=False):
             if sub['caseB']:
                 with world.reference_mode():
                     rc = world.make_connection(W['ledger'], (), copy=1)
-                    fd, fr = run_query(rc, stmts.fresh_ast('SELECT lineno AS ln, position AS pos'))
-                full = [(r[0], r[1]) for r in fr]
+                    fd, fr = run_query(rc, stmts.fresh_ast('SELECT position AS pos'))
+                full = [r[0] for r in fr]
             probs = check_prefix(desc, rows, sub['refs'], full)
             for p in probs[:1]:
                 if p['kind'] == 'unaligned':
@@ -347,7 +357,7 @@ def execute(case, keep_log=False):
                         stats['companion_failed'] = 1
                 if cr is not None:
                     i0 = names.index('b0')
-                    exp = canon(wrap(cr[0][0], sub['refs'][0]))
+                    exp = canon(wrap(cr[0][0], sub['refs'][0], rows[-1][names.index('pos')]))
                     got = canon(rows[-1][i0])
                     if exp != got:
                         violation('last-balance-not-sum', 'subject', {'expected': exp, 'observed': got, 'companion': comp})
